@@ -88,6 +88,7 @@ class NonThreadedExecutor:
 
         self.excinfo = None
         self.errorstack = None
+        self.rolledback.clear()     # Forget the failures of earlier calls
         self.is_executing = True
 
         try:
@@ -300,7 +301,9 @@ class CallStack(deque):
     def rollback(self):
         node = deque.pop(self)
         self.idxstack.pop()
-        self.executor.rolledback.append(node)
+        # Keep the exception with the node, to tell the failing chain
+        # from failures that formulas caught and handled themselves
+        self.executor.rolledback.append((node, sys.exc_info()[1]))
         self.counter -= 1
         cells = node[OBJ]
 
@@ -385,6 +388,11 @@ class ErrorStack(deque):
         tbexc = traceback.TracebackException.from_exception(execinfo[1])
         tb = execinfo[2]
         self.on_eval_flag = False
+
+        # Nodes unwound by the exception being reported
+        nodes = deque(n for n, exc in rolledback if exc is execinfo[1])
+        rolledback.clear()
+        rolledback = nodes
 
         mxdir = os.path.dirname(modelx.__file__)
 
